@@ -31,6 +31,11 @@
                     not a valid Request object (its example: an object whose method is the number 1
                     is answered -32600).
 
+     FixLongWs      single-vs-batch is decided by peeking into a 128-byte bufio.Reader: after 128 or
+                    more bytes of leading whitespace Peek fails, isBatch answers false and a valid
+                    batch is decoded as a single Request - answered with one -32700 Parse error
+                    object instead of being processed.
+
    Modelling decisions (stated, not hidden):
      * an id member that is null is read as no id - the code (Request.ID == nil) and JSON-RPC 1.0 treat it as a
        notification; 2.0 merely discourages it.  Not judged.
@@ -48,8 +53,10 @@ CONSTANTS
   MaxEntries,       \* longest batch
   PoolSize,         \* NewServer(poolMaxGoroutines)
   BatchDisabled,    \* DisableBatchRequests(true)
+  FarChoices,       \* {FALSE} or BOOLEAN: may the input start with >= 128 bytes of whitespace
   FixNotif,
-  FixNonRequest
+  FixNonRequest,
+  FixLongWs
 
 KnownMethods == DOMAIN Methods
 
@@ -222,6 +229,7 @@ HandleRequest(i, e) ==
 
 VARIABLES
   top,       \* "none" while the input is being chosen, then a member of TopKinds
+  far,       \* the input starts with >= bufferSize (128) bytes of JSON whitespace
   entries,   \* the entries of the input (one for "single")
   phase,     \* "build" | "dispatch" | "done"
   nxt,       \* batch dispatcher: index of the next raw entry
@@ -232,18 +240,19 @@ VARIABLES
   shape,     \* "pending" | "nothing" | "object" | "array"
   log        \* handler invocations in call order
 
-vars == <<top, entries, phase, nxt, running, called, stage, out, shape, log>>
+vars == <<top, far, entries, phase, nxt, running, called, stage, out, shape, log>>
 
 Idx == 1..MaxEntries
 
 Init ==
-  /\ top = "none" /\ entries = <<>> /\ phase = "build" /\ nxt = 1 /\ running = {}
+  /\ top = "none" /\ far = FALSE /\ entries = <<>> /\ phase = "build" /\ nxt = 1 /\ running = {}
   /\ called = [i \in Idx |-> NoResp] /\ stage = [i \in Idx |-> "idle"]
   /\ out = <<>> /\ shape = "pending" /\ log = <<>>
 
-ChooseTop(t) ==
+ChooseTop(t, f) ==
   /\ phase = "build" /\ top = "none"
-  /\ top' = t
+  /\ f => t \in {"batch", "garbagearr"}     \* elsewhere leading whitespace changes nothing in the model
+  /\ top' = t /\ far' = f
   /\ UNCHANGED <<entries, phase, nxt, running, called, stage, out, shape, log>>
 
 AddEntry(e) ==
@@ -251,16 +260,19 @@ AddEntry(e) ==
   /\ Len(entries) < (IF top = "single" THEN 1 ELSE MaxEntries)
   /\ top = "single" => e.k # "arr"          \* a top-level array IS a batch
   /\ entries' = Append(entries, e)
-  /\ UNCHANGED <<top, phase, nxt, running, called, stage, out, shape, log>>
+  /\ UNCHANGED <<top, far, phase, nxt, running, called, stage, out, shape, log>>
 
 TopError(code) == <<Resp(0, "error", code, "null")>>
+
+(* isBatch(): the first non-space byte is '[' AND it lies within the 128-byte peek window *)
+BatchDetected == top \in {"batch", "garbagearr"} /\ (FixLongWs \/ ~far)
 
 (* HandleReader up to the point where the batch is handed to handleBatchRequest *)
 Serve ==
   /\ phase = "build" /\ top # "none"
   /\ top = "single" => Len(entries) = 1
-  /\ UNCHANGED <<top, entries, nxt, running, called, stage>>
-  /\ IF top = "garbage" THEN
+  /\ UNCHANGED <<top, far, entries, nxt, running, called, stage>>
+  /\ IF top = "garbage" \/ (top = "garbagearr" /\ ~BatchDetected) THEN
        /\ out' = TopError(CodeParse) /\ shape' = "object" /\ log' = log /\ phase' = "done"
      ELSE IF top = "garbagearr" THEN
        \* a disabled batch endpoint refuses before it parses
@@ -277,6 +289,10 @@ Serve ==
          /\ shape' = IF h.resp = NoResp THEN "nothing" ELSE "object"
          /\ log' = IF h.inv = NoInv THEN log ELSE Append(log, h.inv)
          /\ phase' = "done"
+     ELSE IF ~BatchDetected THEN
+       \* a valid JSON array decoded into the Request struct: *json.UnmarshalTypeError
+       /\ out' = TopError(IF FixNonRequest THEN CodeInvalid ELSE CodeParse)
+       /\ shape' = "object" /\ log' = log /\ phase' = "done"
      ELSE \* "batch"
        IF BatchDisabled \/ entries = <<>> THEN
          /\ out' = TopError(CodeInvalid) /\ shape' = "object" /\ log' = log /\ phase' = "done"
@@ -297,7 +313,7 @@ Dispatch ==
        /\ stage' = [stage EXCEPT ![nxt] = "queued"]
        /\ out' = out
   /\ nxt' = nxt + 1
-  /\ UNCHANGED <<top, entries, phase, called, shape, log>>
+  /\ UNCHANGED <<top, far, entries, phase, called, shape, log>>
 
 (* a worker runs handleRequest for entry i (the handler call happens here) *)
 Call(i) ==
@@ -306,7 +322,7 @@ Call(i) ==
      /\ called' = [called EXCEPT ![i] = h.resp]
      /\ log' = IF h.inv = NoInv THEN log ELSE Append(log, h.inv)
   /\ stage' = [stage EXCEPT ![i] = "called"]
-  /\ UNCHANGED <<top, entries, phase, nxt, running, out, shape>>
+  /\ UNCHANGED <<top, far, entries, phase, nxt, running, out, shape>>
 
 (* ... and appends its response under the mutex, then the task returns *)
 Add(i) ==
@@ -314,18 +330,21 @@ Add(i) ==
   /\ out' = IF called[i] = NoResp THEN out ELSE Append(out, called[i])
   /\ running' = running \ {i}
   /\ stage' = [stage EXCEPT ![i] = "finished"]
-  /\ UNCHANGED <<top, entries, phase, nxt, called, shape, log>>
+  /\ UNCHANGED <<top, far, entries, phase, nxt, called, shape, log>>
 
 (* wg.Wait(); "if there are no response objects server must not return empty array" *)
 Finish ==
   /\ phase = "dispatch" /\ nxt > Len(entries) /\ running = {}
   /\ shape' = IF out = <<>> THEN "nothing" ELSE "array"
   /\ phase' = "done"
-  /\ UNCHANGED <<top, entries, nxt, running, called, stage, out, log>>
+  /\ UNCHANGED <<top, far, entries, nxt, running, called, stage, out, log>>
+
+CanAdd == /\ phase = "build" /\ top \in {"single", "batch"}
+          /\ Len(entries) < (IF top = "single" THEN 1 ELSE MaxEntries)
 
 Next ==
-  \/ \E t \in TopKinds : ChooseTop(t)
-  \/ \E e \in EntryAlphabet : AddEntry(e)
+  \/ \E t \in TopKinds, f \in FarChoices : ChooseTop(t, f)
+  \/ CanAdd /\ \E e \in EntryAlphabet : AddEntry(e)     \* guard first: the alphabet is large
   \/ Serve \/ Dispatch \/ Finish
   \/ \E i \in Idx : Call(i) \/ Add(i)
 
@@ -339,8 +358,9 @@ Range(s) == {s[i] : i \in DOMAIN s}
 Count(s, P(_)) == Cardinality({i \in DOMAIN s : P(s[i])})
 
 (* the input reached the per-entry stage (it was a request or a processed batch) *)
+LongWsMiss == ~FixLongWs /\ far /\ top \in {"batch", "garbagearr"}     \* known deviation
 Processed == \/ top = "single"
-             \/ top = "batch" /\ ~BatchDisabled /\ entries # <<>>
+             \/ top = "batch" /\ ~BatchDisabled /\ entries # <<>> /\ ~LongWsMiss
 
 (* what the property allows for entry i in this context, with the two known deviations of the
    code as it is switched in (both switches TRUE: the pure property) *)
@@ -355,7 +375,7 @@ RespOK(i, e, r) ==
   ELSE DeclRespOK(i, e, r)
 
 TypeOK ==
-  /\ top \in TopKinds \cup {"none"}
+  /\ top \in TopKinds \cup {"none"} /\ far \in BOOLEAN
   /\ phase \in {"build", "dispatch", "done"}
   /\ shape \in {"pending", "nothing", "object", "array"}
   /\ running \subseteq Idx
@@ -383,13 +403,19 @@ POnePerEntry ==
 PResponses ==
   (Done /\ Processed) => \A r \in Range(out) : r.e \in DOMAIN entries => RespOK(r.e, entries[r.e], r)
 
-(* inputs that never reach an entry: one error object with id null *)
+(* inputs that never reach an entry: one error object with id null.  PureTopCode is what the
+   property promises, independent of the switches. *)
+PureProcessed == top = "single" \/ (top = "batch" /\ ~BatchDisabled /\ entries # <<>>)
+PureTopCode == CASE top = "garbage" -> CodeParse
+                 [] top = "garbagearr" -> (IF BatchDisabled THEN CodeInvalid ELSE CodeParse)
+                 [] top = "batch" /\ ~PureProcessed -> CodeInvalid
+                 [] OTHER -> 0
 PTopLevel ==
-  (Done /\ ~Processed) =>
-    /\ shape = "object" /\ log = <<>>
-    /\ out = TopError(CASE top \in {"garbage"} -> CodeParse
-                        [] top = "garbagearr" -> (IF BatchDisabled THEN CodeInvalid ELSE CodeParse)
-                        [] OTHER -> CodeInvalid)
+  /\ (Done /\ ~Processed) =>
+       /\ shape = "object" /\ log = <<>>
+       /\ out = TopError(IF ~LongWsMiss THEN PureTopCode
+                         ELSE IF top = "garbagearr" \/ ~FixNonRequest THEN CodeParse ELSE CodeInvalid)
+  /\ (FixLongWs /\ Done) => (Processed <=> PureProcessed)
 
 (* each valid request invokes its handler exactly once with the supplied arguments; nothing else
    is invoked *)
@@ -431,5 +457,5 @@ BuildAgreesWithDecl(P) ==
       /\ BuildArguments(md, p).ok <=> ParamsFit(md, p)
       /\ ParamsFit(md, p) => BuildArguments(md, p).args = DeclArgs(md, p)
 
-view == <<top, entries, phase, nxt, running, called, stage, out, shape, log>>
+view == <<top, far, entries, phase, nxt, running, called, stage, out, shape, log>>
 =============================================================================
